@@ -46,6 +46,9 @@ def gen(rng, tier):
         for L in (2048, 4095, 4096, 255 * 20, 65536):
             add("single", "sets %d:%s" % (rng.randrange(256), rb(rng, L)))
         nseq, nparse = 6000, 6000
+    for L in (1, 2, 5, 255, 256, 300):
+        for z in (1, 2):
+            add("single", "sets %d:%s" % (rng.choice(tags_small), rb(rng, L - z if L > z else 0) + "00" * min(z, L)))
     for _ in range(nseq):
         k = rng.randrange(1, 7)
         pool = rng.sample(range(256), 2) if rng.random() < 0.7 else list(range(256))
@@ -155,6 +158,8 @@ def outcome_class(c, obs):
 def oracle(c, obs):
     """the property's own predicate, evaluated on what the implementation did"""
     kind, x = parse_line(c["line"])
+    if "/str:" in obs:
+        return "GetString of a tag is not the bytes GetBytes returns for it: " + [t for t in obs.split(" ") if "/str:" in t][0][:80]
     if obs.startswith("panic") or obs.startswith("DRIVER-DIED") or obs == "NO-OUTPUT":
         return "no panic / crash on any input; observed: " + obs[:80]
     f = obs_fields(obs)
